@@ -457,6 +457,113 @@ def _c11_reference(case):
     return " ".join(["OK"] + out)
 
 
+def _c11_reference_files(case):
+    """`F name : lines @ name : lines`: C's rules with #include as the file's lines in place (one condition chain for the
+    whole translation unit), a #pragma once file contributing once.  None = outside what the property states (a
+    directive the language rejects in a selected group, the depth limit, a malformed condition, #else after #else)."""
+    files = {}
+    for sec in case[2:].split("@"):
+        name, _, body = sec.partition(":")
+        files[name.strip()] = [l.split() for l in body.split(";") if l.split()]
+    for ls in files.values():
+        for w in ls:
+            if w[0] in ("if", "elif"):
+                try:
+                    _c11_eval(w[1:], {"A": 1, "B": 1, "C": 1, "D": 1, "U": 1, "Q": 1, "G": 1})
+                except _CondErr:
+                    return None
+    env, out, stack, once = {}, [], [], set()
+
+    class Outside(Exception):
+        pass
+
+    class Reject(Exception):
+        pass
+
+    def active():
+        return all(s[2] for s in stack)
+
+    def run(name, depth):
+        for w in files[name]:
+            k = w[0]
+            if k in ("if", "ifdef", "ifndef"):
+                if not active():
+                    stack.append([False, True, False, False])
+                    continue
+                if k == "if":
+                    try:
+                        v = _c11_eval(w[1:], env)
+                    except _CondErr:
+                        raise Outside()
+                elif k == "ifdef":
+                    v = w[1] in env
+                else:
+                    v = w[1] not in env
+                stack.append([True, v, v, False])
+            elif k in ("elif", "else"):
+                if not stack:
+                    raise Reject("ERR ElseNotMatched")
+                s = stack[-1]
+                if s[3]:
+                    raise Outside()
+                if k == "else":
+                    s[3] = True
+                    v = True
+                elif s[0] and not s[1]:
+                    try:
+                        v = _c11_eval(w[1:], env)
+                    except _CondErr:
+                        raise Outside()
+                else:
+                    v = False
+                if s[0] and not s[1] and v:
+                    s[1], s[2] = True, True
+                else:
+                    s[2] = False
+            elif k == "endif":
+                if not stack:
+                    raise Reject("ERR EndIfNotMatched")
+                stack.pop()
+            elif not active():
+                continue          # nothing else in a skipped group has any effect
+            elif k == "t":
+                out.append("x" + w[1])
+            elif k == "use":
+                if w[1] in env:
+                    if env[w[1]] is not None:
+                        out.append(str(env[w[1]]))
+                else:
+                    out.append(w[1])
+            elif k == "define":
+                env[w[1]] = int(w[2]) if len(w) > 2 else None
+            elif k == "undef":
+                env.pop(w[1], None)
+            elif k == "include":
+                if w[1] not in files:
+                    raise Reject("ERR FailedToFindFile")
+                if depth >= 60:
+                    raise Outside()      # endless inclusion: the limit is the implementation's
+                if w[1] not in once:
+                    run(w[1], depth + 1)
+            elif k == "pragma":
+                if w[1:2] == ["once"]:
+                    once.add(name)
+                elif w[1:2] != ["warning"]:
+                    raise Outside()      # unknown pragmas are the implementation's to accept or reject
+            else:
+                raise Outside()          # an unknown directive in a selected group
+
+    try:
+        run("main.rssl", 0)
+    except Outside:
+        return None
+    except Reject as r:
+        return r.args[0]
+    if stack:
+        return "ERR ConditionChainNotFinished"
+    return " ".join(["OK"] + out)
+
+
 class C11(Prop):
     id = "C11"
     gens = ["GenCond"]
@@ -470,6 +577,7 @@ class C11(Prop):
         "conditions reach the model pre-tokenised (words separated by blanks); lexing is C10's business",
         "macros inside conditions restricted to object-like macros with one integer literal or an empty body (general expansion is C12)",
         "#else/#elif after #else is outside the property's text: the model keeps the code's behaviour (accepted), the theorems and the oracle exclude it",
+        "#include / #pragma / unknown directives: coq/model/CondIncl.v (hand-written; condition chain shared across files, once-set, MAX_INCLUDE_DEPTH regenerated from the source, the shape of preprocess_command's arms and of FileLoader::load checked by the translator); tied by F cases (several files) against the preprocessor; the C reference for them treats #include as the file's lines in place and leaves unknown pragmas / directives in selected groups and the depth limit to the implementation",
     ]
 
     def comparable(self, case, impl, model):
@@ -486,7 +594,7 @@ class C11(Prop):
                 if got.strip() != want.strip():
                     return "directive probe %s: C's rules let `%s` through, the preprocessor produced `%s`" % (case.split()[1], want.strip(), got.strip())
             return None
-        exp = _c11_reference(case)
+        exp = _c11_reference_files(case) if case.startswith("F ") else _c11_reference(case)
         if exp is None:
             return None
         if impl.startswith("PANIC"):
@@ -506,6 +614,10 @@ class C11(Prop):
     def kind(self, case):
         if case.startswith("I "):
             return "include / pragma probes"
+        if case.startswith("F "):
+            files = case.count("@") + 1
+            skipped = any(("if 0 ; %s" % w) in case or ("else ; %s" % w) in case for w in ("include", "pragma", "bogus"))
+            return "files=%d%s%s" % (files, " with include" if "include" in case else "", " directive after a false condition / #else" if skipped else "")
         n = case.count(";") + 1
         return "%s lines=%s" % (("ok" if "endif" in case else "open"), n if n <= 4 else ("5-8" if n <= 8 else ("9-20" if n <= 20 else "21+")))
 
@@ -1229,6 +1341,9 @@ def _c09_is_nan_leaf(t):
 # ---------------------------------------------------------------------------
 class C12(Prop):
     id = "C12"
+    # the model is the code's algorithm, recorded findings included: a violation of a recorded class on which model and
+    # implementation differ is reported as a disagreement (check: explore)
+    known_in_model = True
     gens = ["GenLexer"]
     header = 0
     n_quick = 2500
